@@ -5,7 +5,7 @@
 From Coq Require Import List NArith Bool.
 From Frugal Require Import Bytes Wire Skip Values Desc Spec Encode Decode Checks Tags State Bitset Alloc DescMap Conc LegacyDefs.
 From Frugal.gen Require Import Params.
-From Frugal.proofs Require Import GenParams GenTables EncodeSpec BufferContract.
+From Frugal.proofs Require Import GenEncParams GenTables EncodeSpec BufferContract.
 From Frugal.props Require Import Examples.
 From Frugal.proofs Require Import MapOrder.
 Import ListNotations.
@@ -24,7 +24,7 @@ Print Assumptions C16_buffer_frame.
 (* repeatable: the bytes are a function of the value and of the iteration order of its maps only:
    whatever that order, the output is put of the denotation in that order *)
 Theorem C16_function_of_value : forall env sid v,
-  params_ok = true -> tables_ok = true -> env_ok env = true -> has_type env (TStruct sid) v = true ->
+  enc_params_ok = true -> tables_ok = true -> env_ok env = true -> has_type env (TStruct sid) v = true ->
   append_struct env sid v = put (denote env (TStruct sid) v).
 Proof. exact encode_refines. Qed.
 
@@ -36,7 +36,7 @@ Proof. eexists. split; vm_compute; reflexivity. Qed.
    of its maps (vperm, at any depth) gives a message of the same length and the same EncodedSize,
    which parses to the same wire value up to the order of map entries (tvperm) *)
 Theorem C16_repeatable_up_to_order : forall env sid v v',
-  params_ok = true -> tables_ok = true -> env_ok env = true ->
+  enc_params_ok = true -> tables_ok = true -> env_ok env = true ->
   has_type env (TStruct sid) v = true -> vperm v v' ->
   exists w w', append_struct env sid v = put w /\ append_struct env sid v' = put w'
                /\ tvperm w w' /\ encoded_size env sid v = encoded_size env sid v'.
@@ -54,5 +54,5 @@ Proof. pose proof ex_two_orders as H. tauto. Qed.
 
 (* the side conditions on the generated constants and tables that the theorems above assume hold
    for what the translator read from the sources of this run *)
-Theorem C16_side_conditions : params_ok = true /\ tables_ok = true.
-Proof. split; [exact params_ok_holds | exact tables_ok_holds]. Qed.
+Theorem C16_side_conditions : enc_params_ok = true /\ tables_ok = true.
+Proof. split; [exact enc_params_ok_holds | exact tables_ok_holds]. Qed.
